@@ -6,8 +6,11 @@ HERE = os.path.dirname(os.path.dirname(os.path.abspath(__file__)))
 def load_claimed():
     import glob
     out = {}
+    ready = set(open(os.path.join(HERE, "manifest.d", "READY")).read().split())
     for f in sorted(glob.glob(os.path.join(HERE, "manifest.d", "C*.json"))):
-        out[os.path.basename(f)[:-5]] = json.load(open(f))
+        pid = os.path.basename(f)[:-5]
+        if pid in ready:      # the coordinator lists a property here once its check is clean on /repo
+            out[pid] = json.load(open(f))
     return out
 
 CLAIMED = load_claimed()
